@@ -39,6 +39,9 @@ theorem deg_roundtrip (v : ℝ) : v * deg / deg = v := unit_roundtrip v deg deg_
 theorem micro_roundtrip (v : ℝ) : v * micro / micro = v := unit_roundtrip v micro micro_ne
 theorem nano_roundtrip (v : ℝ) : v * nano / nano = v := unit_roundtrip v nano nano_ne
 theorem pmPerVolt_roundtrip (v : ℝ) : v * pmPerVolt / pmPerVolt = v := unit_roundtrip v _ pmPerVolt_ne
+theorem toDeff_eq (v : ℝ) : toDeff v = v * pmPerVolt := by
+  unfold toDeff pmPerVolt; exact mul_div_assoc v _ _
+theorem toDeff_roundtrip (v : ℝ) : toDeff v / pmPerVolt = v := by rw [toDeff_eq, pmPerVolt_roundtrip]
 theorem kelvin_roundtrip (v : ℝ) : v + kelvin0 - kelvin0 = v := by ring
 theorem mw_roundtrip (v : ℝ) : v * (1.0e-3 : ℝ) * (1000.0 : ℝ) / (1.0 : ℝ) = v := by norm_num; ring
 theorem one_roundtrip (v : ℝ) : v * (1.0 : ℝ) / (1.0 : ℝ) = v := by norm_num
